@@ -459,7 +459,7 @@ func checkC11Seq(c c11SeqCase) verdict {
 }
 
 var c11Seq = newPart("C11", "sequential-adversary",
-	"rapid: sequential histories of 1..50 mixed calls (HOTP/TOTP/OCRA generation and validation, OCRA messages below and above the 256-byte pooled buffer, suite lookups, URL generation+parsing) and FAILING calls (undecodable secrets in four shapes, unsupported digits / hash, inadmissible OCRA inputs: an error and nothing else is expected, and later calls must be unaffected; OCRA calls with a Suite that cannot be used at all - nil interface, nil pointer, an implementation whose methods panic - from which the caller recovers: every later call runs under a watchdog and must return what it returns alone), in a third of the histories with all OCRA byte fields laid out as consecutive windows of one shared buffer (spare room and the other calls' data behind every field), interleaved with double garbage collections (emptying the pools and their victim caches) and an adversary that Gets buffers from both library pools through the verif hook, overwrites their full capacity, Puts them back and donates poisoned fresh buffers; invariant after every step: the result equals the reference value for the arguments alone, and every result string ever returned is still byte-identical to an independent copy; non-trivial = history with adversary or GC steps and >= 3 kinds of operation",
+	"rapid: sequential histories of 1..50 mixed calls (HOTP/TOTP/OCRA generation and validation, keys of 1..40 bytes and on both sides of the hash block sizes 64 / 128, OCRA messages below and above the 256-byte pooled buffer, suite lookups, URL generation+parsing) and FAILING calls (undecodable secrets in four shapes, unsupported digits / hash, inadmissible OCRA inputs: an error and nothing else is expected, and later calls must be unaffected; OCRA calls with a Suite that cannot be used at all - nil interface, nil pointer, an implementation whose methods panic - from which the caller recovers: every later call runs under a watchdog and must return what it returns alone), in a third of the histories with all OCRA byte fields laid out as consecutive windows of one shared buffer (spare room and the other calls' data behind every field), interleaved with double garbage collections (emptying the pools and their victim caches) and an adversary that Gets buffers from both library pools through the verif hook, overwrites their full capacity, Puts them back and donates poisoned fresh buffers; invariant after every step: the result equals the reference value for the arguments alone, and every result string ever returned is still byte-identical to an independent copy; non-trivial = history with adversary or GC steps and >= 3 kinds of operation",
 	checkC11Seq)
 
 func drawC11Op(t *rapid.T, allowHostile bool) c11Op {
@@ -481,6 +481,12 @@ func drawC11OpOfKind(t *rapid.T, kind string) c11Op {
 		return o
 	}
 	o.Key = rapid.SliceOfN(rapid.Byte(), 1, 40).Draw(t, "key")
+	if rapid.IntRange(0, 3).Draw(t, "longKey") == 0 {
+		// keys on both sides of the digest sizes and of the hash block sizes (64 / 128): a keyed-hash object that is reused
+		// treats them differently (hashed first, padded differently), and what it leaves behind meets the next call
+		n := rapid.SampledFrom([]int{21, 33, 63, 64, 65, 66, 100, 127, 128, 129, 130, 200, 300}).Draw(t, "longKeyLen")
+		o.Key = rapid.SliceOfN(rapid.Byte(), n, n).Draw(t, "longKeyBytes")
+	}
 	o.Counter = gen.Counter().Draw(t, "counter")
 	if strings.HasPrefix(o.Kind, "totp") {
 		o.Counter = rapid.Uint64Range(30*12, 1<<40).Draw(t, "unix")
